@@ -211,7 +211,7 @@ pub fn run(ctx: &Ctx) -> Report {
     rep.assume("'frameset optionally followed by noframes' is read as zero or more noframes elements: the standard's after-frameset mode inserts every <noframes> it sees, so a literal 'at most one' would contradict the WHATWG algorithm (C02)");
     report_known(ctx, &mut rep, &|v| replay(&ctx.strict_clone(), v));
     run_regressions(ctx, &mut rep, &|v| replay(&ctx.strict_clone(), v));
-    let out = run_random(ctx.seed, ctx.tier.pick(200_000, 10_000_000), 1500, decode, check);
+    let out = run_random(ctx.seed, ctx.tier.pick(2_000_000, 30_000_000), 1500, decode, check);
     rep.absorb(out);
     for l in [
         "frameset document",
